@@ -25,14 +25,16 @@ REQUIRED = {
               "class/arb_inside_threshold": 150, "class/arb_gap_equals_threshold": 25, "class/arb_outside_threshold_index_cheap": 55,
               "class/arb_outside_threshold_index_rich": 55, "class/arb_near_threshold": 100,
               "orders_checked_wellformed": 3000, "class/share_choice_checked": 300,
-              "class/mm_handed_only_part_of_the_markets": 300},
+              "class/mm_handed_only_part_of_the_markets": 300,
+              "class/arb_two_indices_sharing_components:2_outside_the_threshold": 8},
     "thorough": {"evaluations/FCNAgent": 60000, "evaluations/MarketShareFCNAgent": 15000,
                  "evaluations/MarketMakerAgent": 24000, "evaluations/ArbitrageAgent": 12000, "class/fcn_buy": 12000,
                  "class/fcn_sell": 12000, "class/fcn_normal_margin": 9000, "class/mm_base_from_quotes": 6000,
                  "class/mm_base_from_market_price": 3000, "class/arb_inside_threshold": 4500,
                  "class/arb_gap_equals_threshold": 700, "class/arb_outside_threshold_index_cheap": 2400, "class/arb_outside_threshold_index_rich": 2400,
                  "class/arb_near_threshold": 3000, "orders_checked_wellformed": 90000,
-                 "class/share_choice_checked": 9000, "class/mm_handed_only_part_of_the_markets": 9000},
+                 "class/share_choice_checked": 9000, "class/mm_handed_only_part_of_the_markets": 9000,
+                 "class/arb_two_indices_sharing_components:2_outside_the_threshold": 2000},
 }
 
 
@@ -85,6 +87,8 @@ def gen_case(rng, tier, idx):
         "steps": rng.choice([0, 1, 3, 10, 40, 120]),
         "vol": rng.choice([0.0, 0.005, 0.03]),
         "evals": 25,
+        # every sixth world with three spot markets has two index markets that share a component
+        "second_index": idx % 6 == 1,
     }
 
 
@@ -124,6 +128,15 @@ class World:
                       "outstandingShares": 1000})
             self.sim._add_market(im, group_name="IDX")
             self.index = im
+        self.index2 = None
+        if case.get("second_index") and self.index is not None and case["n_spot"] >= 3:
+            im2 = IndexMarket(market_id=case["n_spot"] + 1, prng=random.Random(98), simulator=self.sim, name="IDX2")
+            part = self.spots[1:]
+            p2 = sum(case["levels"][i] * case["ticks"][i] for i in range(1, case["n_spot"])) / len(part)
+            im2.setup({"tickSize": self.rng.choice([1.0, 0.5]), "marketPrice": p2, "markets": [s_.name for s_ in part],
+                       "outstandingShares": 1000})
+            self.sim._add_market(im2, group_name="IDX2")
+            self.index2 = im2
         self.markets = list(self.sim.markets)
         self.sim._update_times_on_markets(self.markets)
         for m in self.markets:
@@ -627,6 +640,54 @@ def eval_arb(res, world, rng):
         res.violation("arb", "arbitrage-order-lifetime-differs-from-orderTimeLength", wit)
 
 
+def eval_arb_two(res, world, rng):
+    """two index markets that share components: the agent's answer is the hedged basket of every index outside the
+    threshold - the baskets side by side, none of their orders missing."""
+    from pams.agents import ArbitrageAgent
+
+    v = rng.choice([1, 2, 5])
+    gaps = {}
+    for im in (world.index, world.index2):
+        computed = im.get_index()
+        tick = im.tick_size
+        lvl = max(1, round(computed / tick) + rng.choice([-1, 1]) * rng.randint(5, 40))
+        world.trade_at(im, lvl * tick)
+    for im in (world.index, world.index2):
+        gaps[im.market_id] = im.get_market_price() - im.get_index()
+    if any(g == 0 for g in gaps.values()):
+        return
+    small = min(abs(g) for g in gaps.values())
+    thr = small * rng.choice([0.5, 0.5, 2.0]) if rng.random() < 0.8 else max(abs(g) for g in gaps.values()) * 3.0
+    if any(abs(abs(g) - thr) <= 1e-6 * abs(g) for g in gaps.values()):
+        return
+    a = ArbitrageAgent(agent_id=rng.randint(0, 50), prng=RecordingRandom(1), simulator=world.sim, name="arb2")
+    st = {"cashAmount": 1000, "assetVolume": 10, "orderVolume": v, "orderThresholdPrice": thr, "orderTimeLength": 2}
+    try:
+        a.setup(settings=st, accessible_markets_ids=[m.market_id for m in world.markets])
+        orders = a.submit_orders(markets=world.markets)
+    except Exception as e:  # noqa
+        res.violation("arb", "built-in-agent-raised-on-admissible-state", {"class": "ArbitrageAgent", "settings": st, "exc": repr(e)})
+        return
+    if not wellformed(res, a, orders, "ArbitrageAgent"):
+        return
+    exp = []
+    for im in (world.index, world.index2):
+        g = gaps[im.market_id]
+        if abs(g) > thr:
+            comps = im.get_components()
+            index_buy = g < 0
+            exp.append((im.market_id, index_buy, len(comps) * v))
+            exp.extend((c.market_id, not index_buy, v) for c in comps)
+    got = sorted((o.market_id, bool(o.is_buy), o.volume) for o in orders)
+    n_out = sum(1 for g in gaps.values() if abs(g) > thr)
+    res.count("class/arb_two_indices_sharing_components:%d_outside_the_threshold" % n_out)
+    if got != sorted(exp):
+        res.violation("arb", "arbitrage-basket-is-not-index-n-times-v-against-components-v",
+                      {"class": "ArbitrageAgent", "settings": st, "gaps": gaps, "threshold": thr,
+                       "two_indices_sharing_components": True, "expected(market,is_buy,volume)": sorted(exp),
+                       "orders": [repr(o) for o in orders]})
+
+
 def run_case(case, res):
     from .. import bootstrap, taps
 
@@ -646,6 +707,8 @@ def run_case(case, res):
             eval_fcn(res, world, rng, share=True)
         elif k == "mm":
             eval_mm(res, world, rng)
+        elif world.index2 is not None:
+            eval_arb_two(res, world, rng)
         else:
             eval_arb(res, world, rng)
         if rng.random() < 0.3:
